@@ -10,6 +10,7 @@ import (
 	"sort"
 	"strings"
 	"sync"
+	"sync/atomic"
 	"testing"
 	"time"
 
@@ -634,9 +635,18 @@ func TestC22(t *testing.T) {
 	}
 	results := make([]caseResult, len(cases))
 	var distinct behav.Distinct
+	var nfail int32
 	behav.Parallel(len(cases), func(i int) {
 		c := cases[i]
+		if atomic.LoadInt32(&nfail) >= 24 {
+			// enough failing cases for a verdict; the rest would only cost deadlines
+			res.Cover("skipped_after_many_failures")
+			return
+		}
 		r := runCase(c, res.Cover)
+		if r.fail != nil {
+			atomic.AddInt32(&nfail, 1)
+		}
 		results[i] = r
 		res.CountEval()
 		if r.jobs > 0 && distinct.Add(behav.JSON(c.Beh)+fmt.Sprint(c.Seed, c.Gran)) {
